@@ -1005,6 +1005,42 @@ CHECKS = {"C01": check_C01, "C02": check_C02, "C03": check_C03, "C04": check_C04
 
 
 
+def replay_file(prop, path):
+    """bin/check <id> --replay <file>: re-execute the single case a VIOLATION line points to"""
+    from . import queries
+    d = json.load(open(path))
+    key, det = d["key"], d["detail"]
+    parts = key.split("/")
+    eng, un, rn = parts[0], parts[1] if len(parts) > 1 else None, parts[2] if len(parts) > 2 else None
+    print("replaying", key)
+    res = None
+    if eng in ("pairs", "pairq", "incl", "inter") and len(parts) > 3 and parts[3].count(":") == 2:
+        op, a, b = parts[3].split(":")
+        rows = [r for r in models.pair_rows(un) if r["a"] == int(a) and r["b"] == int(b) and (r["op"] == op or (eng != "pairs" and r["op"] == "or"))]
+        if rows:
+            row = rows[0]
+            res = {"pairs": lambda: replay.run_case((un, rn, replay.pair_case(Universe(un), row), {"check_c10": False})),
+                   "pairq": lambda: queries.pairq_case((un, rn, row, {})), "incl": lambda: queries.incl_excl_case((un, rn, row, {})),
+                   "inter": lambda: queries.inter_case((un, rn, row, {}))}[eng]()
+    elif eng in ("points", "moments", "ctors", "plot", "c19", "badargs") and len(parts) > 3:
+        reg = int(parts[3].split(":")[1])
+        fn = {"points": queries.points_case, "moments": queries.moments_case, "ctors": queries.ctors_case, "plot": queries.plot_case,
+              "c19": queries.c19_case, "badargs": queries.badargs_case}[eng]
+        res = fn((un, rn, reg, {}))
+    if res is None:
+        print("this kind of case is not re-executable from the file alone; recorded detail:")
+        print(json.dumps(det, indent=1, default=str)[:4000])
+        return 1
+    if res.get("machinery"):
+        print(res["machinery"])
+        return 2
+    bad = [f for f in res["fails"]]
+    for f in bad:
+        print("  FAIL", f["property"], f["what"], {k: v for k, v in f.items() if k not in ("property", "what", "tb")})
+    print("VIOLATION property=%s replay=%s" % (prop, path) if bad else "the case passes on this tree")
+    return 1 if bad else 0
+
+
 def main(argv=None):
     ap = argparse.ArgumentParser()
     ap.add_argument("prop")
@@ -1014,6 +1050,8 @@ def main(argv=None):
     a = ap.parse_args(argv)
     if a.seed is not None:
         os.environ["VERIF_SEED"] = str(a.seed)
+    if a.replay:
+        sys.exit(replay_file(a.prop, a.replay))
     t = runner.tier(a.tier)
     rng = random.Random(runner.seed() * 7919 + sum(map(ord, a.prop)))
     rep = runner.Report(a.prop)
